@@ -147,6 +147,17 @@ func (e *Engine) atLoopHeader(st *State, fr *Frame, b *ssa.BasicBlock) {
 			}
 			return
 		case 1: // discovery
+			// an iteration that observed the expiry of a context and went on to the next iteration
+			if st.writes != nil {
+				for c, d := range st.ctxDone {
+					if d && !ctx.doneAtEntry[c] {
+						if os.Getenv("GOVC_HOUDINI") != "" {
+							fmt.Fprintf(os.Stderr, "DONE-CARRIED %s b%d trace=%v\n", fr.fn.Name(), b.Index, st.trace[max(0, len(st.trace)-8):])
+						}
+						st.writes["$done:"+c] = true
+					}
+				}
+			}
 			st.dead = true
 		case 2: // houdini
 			e.collectCandChecks(st, fr, b)
@@ -177,7 +188,11 @@ func (e *Engine) atLoopHeader(st *State, fr *Frame, b *ssa.BasicBlock) {
 		d.writes = map[string]bool{}
 		d.lwrites = map[*ssa.Alloc]bool{}
 		d.stop = stop
-		df.loopSeen[b] = &loopCtx{mode: 1}
+		entryDone := map[string]bool{}
+		for c, dn := range st.ctxDone {
+			entryDone[c] = dn
+		}
+		df.loopSeen[b] = &loopCtx{mode: 1, doneAtEntry: entryDone}
 		e.havocLoopState(d, df, writes, lwrites, c0)
 		e.assumeLoopInvariants(d, df, b, nil)
 		saveQB := e.quietBudget
@@ -349,6 +364,25 @@ func (e *Engine) atLoopHeader(st *State, fr *Frame, b *ssa.BasicBlock) {
 	fr.loopSeen[b] = &loopCtx{mode: 0, cands: cands}
 	e.havocLoopState(st, fr, writes, lwrites, c0)
 	e.assumeLoopInvariants(st, fr, b, cands)
+	// an earlier iteration may have observed the expiry of a context (done(ctx) is path state): continue from the cut
+	// in both cases
+	for _, k := range sortedKeys(writes) {
+		if !strings.HasPrefix(k, "$done:") {
+			continue
+		}
+		c := k[len("$done:"):]
+		if st.ctxDone[c] {
+			continue
+		}
+		if other := e.fork(st); other != nil {
+			if other.ctxDone == nil {
+				other.ctxDone = map[string]bool{}
+			}
+			other.ctxDone[c] = true
+			other.trace = append(other.trace, "loop:done-observed-earlier")
+			e.run(other)
+		}
+	}
 }
 
 func (e *Engine) frameOf(st *State, a *ssa.Alloc, maxDepth int) *Frame {
